@@ -21,7 +21,8 @@ RULE = ("streams: shapes = every CSV table with header width 0..3, 0..2 data row
         "(outside the property's domain, model fidelity only); perm = the same table with a random column permutation "
         "(rows at least as long as the header); ext = metadata sheets of 0-6 (name, description, type) rows of 1-4 cells "
         "+ ragged data; bind = sequences of 1-4 set_schema / set_schema_loader calls (heading-row loader, do-nothing loader, schemas that are "
-        "hand-written without positions, hand-written with positions or loaded externally, each over its own distinct names) on ONE Sheet "
+        "hand-written without positions, hand-written with positions 0.., loaded externally, or hand-written with an explicit position per name "
+        "= a re-ordered subset of the file's columns so that position 0 is not listed first; each over its own distinct names) on ONE Sheet "
         "object before rows(), every listed pattern (loader then schema, schema then loader, loader-schema-loader, schema twice, ...) on a fixed table "
         "plus random sequences on random tables; ext also incl. a few sheets with a blank line or a repeated name (outside the domain: not judged). CSV for all, XLSX for a sample (quick) / for as many again (thorough). "
         "Non-trivial = at least one data row delivered (branch not in 0/20/40/80); distinct = distinct case lines.")
@@ -79,13 +80,19 @@ def _table(rng, fmt):
     return [_headings(rng, fmt, n)] + _ragged_rows(rng, fmt, n, rng.randint(0, 8))
 
 
-def _ops(rng, fmt, pattern, kind):
+def _ops(rng, fmt, pattern, kind, ncols=3):
     """L = set_schema_loader(HeadingRowSchemaLoader()), N = set_schema_loader(SchemaLoader()),
-    S = set_schema(schema over fresh distinct names; kind 0 hand-written, 1 with positions, 2 loaded externally)"""
+    S = set_schema(schema over fresh distinct names; kind 0 hand-written, 1 with positions 0.., 2 loaded externally,
+    3 hand-written with an explicit position per name: a re-ordered subset of the file's columns, now and then one beyond)"""
     ops = []
     for ch in pattern:
         if ch == "S":
-            ops.append(["schema", rng.randint(0, 2) if kind is None else kind, _headings(rng, fmt, rng.randint(1, 5))])
+            k = rng.randint(0, 3) if kind is None else kind
+            names = _headings(rng, fmt, rng.randint(1, 5))
+            if k == 3:
+                ops.append(["schema", 3, names, rng.sample(range(max(ncols, len(names)) + 1), len(names))])
+            else:
+                ops.append(["schema", k, names])
         else:
             ops.append(["loader", 1 if ch == "L" else 0])
     return ops
@@ -108,12 +115,16 @@ def inputs(ctx):
         yield "shapes", {"stream": "header", "fmt": fmt, "table": [["only", "a header"]]}
         yield "shapes", {"stream": "perm", "fmt": fmt, "table": [["a", "b"]], "perm": [1, 0]}
         yield "shapes", {"stream": "ext", "fmt": fmt, "meta": [], "data": [["1", "2"]]}
+        # explicit positions in another order than the file: position 0 declared second / last; a subset
+        for names, pos in ((["b", "a"], [1, 0]), (["c", "b", "a"], [2, 1, 0]), (["c", "a"], [2, 0]), (["b"], [1]), (["a", "z"], [0, 5])):
+            yield "shapes", {"stream": "bind", "fmt": fmt, "table": [["x", "y", "z"], ["1", "2", "3"], ["4"]],
+                             "ops": [["schema", 3, names, pos]]}
     # --- binding calls on one Sheet object: every pattern below on a fixed table, both formats
     patterns = ["S", "L", "LS", "SL", "LSL", "SS", "NS", "SN", "LNS", "LSN", "SLS", "LLS", "SLN", "LSS", "NLS", "SSL"]
     ctx.exhaustive.append("binding_patterns_" + "_".join(patterns))
     for fmt in ("csv", "xlsx"):
         for pat in patterns:
-            for kind in (0, 1, 2):
+            for kind in (0, 1, 2, 3):
                 yield "bind", {"stream": "bind", "fmt": fmt,
                                "table": [["part", "Unit Cost", "qty"], ["P-100", "1.50", "3"], ["P-200", "2.75"], ["P-300", "4.00", "5", "x"]][:3 if fmt == "xlsx" else 4],
                                "ops": _ops(rng, fmt, pat, kind)}
@@ -157,8 +168,8 @@ def inputs(ctx):
                 pat = "".join(rng.choice("LNSS") for _ in range(rng.randint(1, 4)))
                 if "S" in pat or pat.endswith("L"):          # some schema is bound when rows() runs
                     break
-            yield "bind", {"stream": "bind", "fmt": fmt, "table": _table(rng, fmt) if rng.random() < 0.9 else [],
-                           "ops": _ops(rng, fmt, pat, None)}
+            t = _table(rng, fmt) if rng.random() < 0.9 else []
+            yield "bind", {"stream": "bind", "fmt": fmt, "table": t, "ops": _ops(rng, fmt, pat, None, len(t[0]) if t else 3)}
 
 
 # ---------------------------------------------------------------- writing
@@ -269,7 +280,7 @@ def _observe_bind(fmt, f, folder, inp, W):
     for op in ops:
         if op[0] == "schema":
             probes += op[2]
-            wire_ops.append([1, op[1], [S(n) for n in op[2]]])
+            wire_ops.append([1, op[1], [S(n) for n in op[2]]] + ([list(op[3])] if op[1] == 3 else []))
         else:
             wire_ops.append([0, op[1]])
     path = _write(fmt, folder, "t", table)
@@ -284,7 +295,8 @@ def _observe_bind(fmt, f, folder, inp, W):
                 elif op[1] == 2:
                     sheet.set_schema(_external_schema(fmt, folder, f"meta{i}", op[2]))
                 else:
-                    props = {n: ({"type": "string", "position": j} if op[1] == 1 else {"type": "string"})
+                    props = {n: ({"type": "string", "position": op[3][j]} if op[1] == 3
+                                 else {"type": "string", "position": j} if op[1] == 1 else {"type": "string"})
                              for j, n in enumerate(op[2])}
                     sheet.set_schema(SchemaMaker().from_json({"type": "object", "properties": props}))
             return _read(sheet, probes)
@@ -349,6 +361,6 @@ def describe(inp):
         return f"ext {inp['fmt']} meta={inp['meta']!r} data={inp['data']!r}"
     if inp["stream"] == "bind":
         calls = " then ".join(("set_schema_loader(" + ("HeadingRowSchemaLoader()" if o[1] else "SchemaLoader()") + ")") if o[0] == "loader"
-                              else f"set_schema({['hand-written', 'hand-written+positions', 'external'][o[1]]} {o[2]!r})" for o in inp["ops"])
+                              else f"set_schema({['hand-written', 'hand-written+positions', 'external', 'hand-written positions=' + str(o[3] if len(o) > 3 else '')][o[1]]} {o[2]!r})" for o in inp["ops"])
         return f"bind {inp['fmt']} one Sheet: {calls} then rows(); table={inp['table']!r}"
     return f"{inp['stream']} {inp['fmt']} table={inp['table']!r}" + (f" perm={inp['perm']}" if "perm" in inp else "")
